@@ -4,7 +4,7 @@
 Require Extraction.
 Require Import ExtrOcamlBasic.
 From Redo Require Import Base.Bytes Paths.Norm Paths.Rel DoFiles.Candidates LogRec.Meta Build.Model.
-From Redo Require Tokens.Model.
+From Redo Require Tokens.Model Sched.Locks.
 
 Extraction Language OCaml.
 Extraction "model.ml"
@@ -12,4 +12,5 @@ Extraction "model.ml"
   possible_do_files arg1 arg2 arg3
   format parse parse_done_text done_text
   init_world run_history read_stamp first_runid stamp_eqb
-  Tokens.Model.apply Tokens.Model.init Tokens.Model.Q Tokens.Model.find.
+  Tokens.Model.apply Tokens.Model.init Tokens.Model.Q Tokens.Model.find
+  Sched.Locks.lapply Sched.Locks.empty.
